@@ -1,4 +1,6 @@
 import Cgm.Lemmas.AuditCmd
 import Cgm.E2E.C10
 import Cgm.E2E.C10b
+import Cgm.E2E.C10g
+import Cgm.E2E.C10h
 #audit_namespace Cg.E2E.C10
